@@ -111,7 +111,8 @@ def compose(ops, protocol=True, mt=None):
     return lines, recs, table, False
 
 
-def run_script(drv, bdir, ops, want_emu, keep=None, shim=None, tmpdir=False, protocol=True, ids=(1000, 1000)):
+def run_script(drv, bdir, ops, want_emu, keep=None, shim=None, tmpdir=False, protocol=True, ids=(1000, 1000),
+               stale=False):
     """Execute one op list; returns dict(execution=[records], problems=[...],
     emu=EmuRun|None, script=lines)."""
     d = core.mkscratch("rt")
@@ -129,6 +130,15 @@ def run_script(drv, bdir, ops, want_emu, keep=None, shim=None, tmpdir=False, pro
         env = {"OVNI_TRACEDIR": td}
         if tmpdir:
             env["OVNI_TMPDIR"] = os.path.join(d, "tmp")      # streams are relocated at ovni_thread_free
+        if stale:
+            # files of an earlier run with the same loom / pid / tid are still there (a longer stream)
+            for root in ([td] + ([env["OVNI_TMPDIR"]] if tmpdir else [])):
+                sd = obs.stream_dir(root, "node0", pid_, tid_)
+                os.makedirs(sd, exist_ok=True)
+                with open(os.path.join(sd, "stream.obs"), "wb") as f:
+                    f.write(obs.HDR + b"".join(obs.ev("OB.", 5 + i, struct.pack("<I", 7000 + i)) for i in range(400)))
+                with open(os.path.join(sd, "stream.json"), "w") as f:
+                    f.write('{"version": 3, "ovni": {"finished": 1, "stale": "x%s"}}' % ("y" * 3000))
         if shim:
             # short writes, and the wall clock stepped back by 5 s after a few readings (the event clock
             # must be monotone whatever the wall clock does)
@@ -427,7 +437,7 @@ def main(pid, tier):
         # 7-digit pid and tid
         return run_script(drv, bdir, ops, want_emu, shim=shim if k % 3 == 1 else None,
                           tmpdir=(k % 3 == 2 or k % 6 == 1), protocol=(pid != "C01" or k % 5 != 4),
-                          ids=(1048579, 4194301) if k % 7 == 3 else (1000, 1000))
+                          ids=(1048579, 4194301) if k % 7 == 3 else (1000, 1000), stale=(k % 11 == 5))
 
     ck.phase('generate')
     results = core.pmap(one, list(enumerate(scripts)), workers=core.NCPU)
